@@ -1,8 +1,10 @@
 package engine
 
 import (
+	"fmt"
 	"go/types"
 	"sort"
+	"strings"
 
 	"golang.org/x/tools/go/ssa"
 )
@@ -491,4 +493,77 @@ func staticCalleeOf(c *ssa.CallCommon) *ssa.Function {
 		return v.Fn.(*ssa.Function)
 	}
 	return nil
+}
+
+// BuildFrozen establishes, by a scan of every store in the module, that the struct types of the
+// declared packages are never written outside the excepted packages; their field heaps are then
+// kept across calls (frame by write-absence). Violations are reported and the freeze is dropped.
+func (p *Program) BuildFrozen() {
+	p.FrozenKeys = map[string][]string{}
+	for _, fz := range p.Contracts.Frozen {
+		keys := map[string]bool{}
+		for path, tp := range p.TypesPkgs {
+			if !inModule(path) || !strings.HasSuffix(path, fz.TypePkg) {
+				continue
+			}
+			for _, name := range tp.Scope().Names() {
+				tn, ok := tp.Scope().Lookup(name).(*types.TypeName)
+				if !ok {
+					continue
+				}
+				st, ok := tn.Type().Underlying().(*types.Struct)
+				if !ok {
+					continue
+				}
+				for i := 0; i < st.NumFields(); i++ {
+					keys[p.Sorts.FieldKey(tn.Type(), i).Name] = true
+				}
+			}
+		}
+		excepted := func(fn *ssa.Function) bool {
+			pk := pkgOf(fn)
+			for _, e := range fz.Except {
+				if strings.HasSuffix(pk, e) {
+					return true
+				}
+			}
+			return false
+		}
+		var violators []string
+		for _, fn := range p.AllFuncs {
+			if excepted(fn) {
+				continue
+			}
+			if s := p.Summ[fn]; s != nil {
+				for k := range s.direct {
+					if keys[k] {
+						violators = append(violators, FuncKey(fn)+" writes "+k)
+					}
+				}
+			}
+		}
+		sort.Strings(violators)
+		if len(violators) > 0 {
+			p.FrozenErrors = append(p.FrozenErrors, fmt.Sprintf("frozen %s: written outside %v: %s", fz.TypePkg, fz.Except, strings.Join(violators, "; ")))
+			continue
+		}
+		for k := range keys {
+			p.FrozenKeys[k] = fz.Except
+		}
+	}
+}
+
+// frozenFor reports whether heap key k keeps its value across calls made by fn.
+func (p *Program) frozenFor(k string, fn *ssa.Function) bool {
+	exc, ok := p.FrozenKeys[k]
+	if !ok {
+		return false
+	}
+	pk := pkgOf(fn)
+	for _, e := range exc {
+		if strings.HasSuffix(pk, e) {
+			return false
+		}
+	}
+	return true
 }
